@@ -38,6 +38,9 @@ type World struct {
 
 	NumInstr int
 	moved    map[string]*ssa.Function
+
+	reqAlias     *ssa.Parameter
+	reqAliasDone bool
 }
 
 func loadEnv(extra ...string) []string {
@@ -252,7 +255,7 @@ func (w *World) movedFn(pkg, recv, name string) *ssa.Function {
 				for _, d := range f.Decls {
 					if fd, ok := d.(*ast.FuncDecl); ok {
 						k := funcKey(w.Dir, fn, fd)
-						cur[k] = bodyHash(p.Fset, fd)
+						cur[k] = bodyHash(p.Fset, fd) + "|" + bodyShape(fd)
 						if o, ok := p.TypesInfo.Defs[fd.Name].(*types.Func); ok {
 							decl[k] = o
 						}
@@ -630,4 +633,95 @@ func (w *World) Dispatcher() *ssa.Function {
 		return found[0]
 	}
 	panic(anchorErr{"the dispatcher (unique function calling QuickMatch and Context.SetHandlers)"})
+}
+
+// reqAccess: v reads the current request — ctx.Req.<fields> of the dispatcher's context, or
+// <fields> of a *http.Request parameter of the dispatcher that every caller binds to that same
+// ctx.Req (verified by requestAlias). Returns the field names after the request.
+func (w *World) reqAccess(v ssa.Value) ([]string, bool) {
+	acc := unwrapAddr(v)
+	var names []string
+	for _, f := range acc.Fields {
+		if f == nil {
+			return nil, false
+		}
+		names = append(names, f.Name())
+	}
+	if prm, ok := acc.Base.(*ssa.Parameter); ok {
+		if isNamedPtr(prm.Type(), w.Named("rux", "Context")) && len(names) > 0 && names[0] == "Req" {
+			return names[1:], true
+		}
+		if prm == w.requestAlias() && prm != nil {
+			return names, true
+		}
+	}
+	return nil, false
+}
+
+// requestAlias: a *http.Request parameter of the dispatcher such that at every call of the
+// dispatcher the argument is the Req field of the context passed in the same call — read from it,
+// or stored into it (directly or by Context.Init) on every path before the call. nil if there is none.
+func (w *World) requestAlias() *ssa.Parameter {
+	if w.reqAliasDone {
+		return w.reqAlias
+	}
+	w.reqAliasDone = true
+	disp := w.Dispatcher()
+	ctxT := w.Named("rux", "Context")
+	reqF := w.Field("rux", "Context", "Req")
+	ci, ri := -1, -1
+	for i, p := range disp.Params {
+		if isNamedPtr(p.Type(), ctxT) {
+			ci = i
+		}
+		if types.TypeString(p.Type(), nil) == "*net/http.Request" {
+			ri = i
+		}
+	}
+	if ci < 0 || ri < 0 {
+		return nil
+	}
+	initFn := w.FnOpt("rux", "Context.Init")
+	n := 0
+	for _, g := range w.Funcs {
+		for _, c := range callsToFn(g, disp) {
+			n++
+			a := c.Common().Args
+			ctxArg, reqArg := a[ci], a[ri]
+			ok := false
+			if acc := unwrapAddr(reqArg); len(acc.Fields) == 1 && acc.Fields[0] == reqF && !acc.Elem && canon(acc.Base) == canon(unwrapAddr(ctxArg).Base) {
+				ok = true
+			}
+			if !ok {
+				eachInstr(g, func(in ssa.Instruction) {
+					if !dominates(in, c.(ssa.Instruction)) {
+						return
+					}
+					switch x := in.(type) {
+					case *ssa.Store:
+						if fa, isFA := x.Addr.(*ssa.FieldAddr); isFA && fieldVar(fa.X.Type(), fa.Field) == reqF && canon(fa.X) == canon(ctxArg) && x.Val == reqArg {
+							ok = true
+						}
+					case *ssa.Call:
+						if initFn != nil && staticCallee(x) == initFn && len(x.Call.Args) == 3 && canon(x.Call.Args[0]) == canon(ctxArg) && x.Call.Args[2] == reqArg {
+							// Init stores its request parameter into Req
+							for _, st := range storesToField(initFn, reqF) {
+								if st.Val == ssa.Value(initFn.Params[2]) {
+									ok = true
+								}
+							}
+						}
+					}
+				})
+			}
+			if !ok {
+				return nil
+			}
+		}
+	}
+	if n == 0 {
+		return nil
+	}
+	w.reqAlias = disp.Params[ri]
+	return w.reqAlias
 }
